@@ -68,7 +68,7 @@ def _viol(out, check, symptom, site, c, lay, desc, detail="", vec=None):
 
 def run_unit(unit):
     _, tier, idxs = unit
-    sp = pycodec.space(tier)
+    sp = pycodec.c_space(tier)
     cases = [sp[i] for i in idxs]
     out = UnitOut()
     with Scratch() as sc:
@@ -196,7 +196,7 @@ def _run_case(tier, c, r, mod, h, out):
 
 
 def units(tier):
-    sp = pycodec.space(tier)
+    sp = pycodec.c_space(tier)
     idx = list(range(len(sp)))
     return [(PID, tier, idx[i:i + BATCH]) for i in range(0, len(idx), BATCH)]
 
@@ -215,7 +215,7 @@ def main(pid, tier):
                rule="states = SING u COMB u TREE; values = BASIS (capped per state, extremes always kept); Python to_json()/to_dict() and C Json<Name>() "
                     "parsed with json.loads(object_pairs_hook) and compared strictly (key order, bool vs number, list vs object, sign) with the reference "
                     "value tree; non-trivial = value has a bit set", exhaustive=True,
-               bound="SING(%s) u COMB(2) u TREE; <= %d values per state" % (tier, 48 if tier == "quick" else 400))
+               bound="SING(%s) u COMB(2) u TREE u HOMONYMS; <= %d values per state" % (tier, 48 if tier == "quick" else 400))
     return finish(PID, tier, acc, cov, t0, assumptions=["reference value tree ref.tree", "CPython json module"], guards=g)
 
 
